@@ -2,12 +2,11 @@
    This file contains only property theorems, each closed by `exact <lemma>` and followed by
    Print Assumptions.  W = end_window = CHUNK_END_WINDOW, read from strax/chunk.py on every run.
 
-   Two defects found by this property (design_notes/C12.md F1, F2) concern Plugin._fix_output and
-   DownChunkingPlugin._fix_output.  The model carries both code versions (`..._gen fx`, fx = false:
-   before the repair, `pinned`; fx = true: repaired); `REPAIRED_F1F2` says which one /repo has, and
-   the un-suffixed definitions are the model of the current code.  Statements the current code
-   does not satisfy are kept visible as `Definition C12_full_...` with `..._if_repaired`,
-   `..._pinned_refuted` (witness) and `..._partial` next to them. *)
+   Two defects found by this property (design_notes/C12.md F1, F2) in Plugin._fix_output and
+   DownChunkingPlugin._fix_output were repaired in /repo (312d850, b7d8cdd).  The model carries both
+   code versions (`..._gen fx`, fx = false: before the repair, `pinned`; fx = true: repaired);
+   `REPAIRED_F1F2 = true` says /repo has the repaired one, and the un-suffixed definitions are the
+   model of the current code.  The `..._pinned_refuted` theorems document the old behaviour. *)
 From SV Require Import Model.Rows Model.Chunk Model.PluginKinds Model.C12Harness Spec.C12MatrixSpec
   Proof.PluginKindsProof Proof.PluginOutputProof Proof.C12MatrixProof Proof.C12CurrentProof.
 
@@ -108,32 +107,25 @@ Theorem C12_accepted_message_labels : forall p v range cs,
 Proof. exact (fix_output_ok_labels REPAIRED_F1F2). Qed.
 Print Assumptions C12_accepted_message_labels.
 
-(* full statement: every accepted output has the declared dtype *)
-Definition C12_full_fix_output_dtype : Prop :=
-  forall p i range d x, fix_output_single p i range d = Ok x -> xdt x = dtype_for p d.
+(* every accepted output has the declared dtype (F1 repaired by 312d850) *)
+Theorem C12_fix_output_dtype : forall p i range d x,
+  fix_output_single p i range d = Ok x -> xdt x = dtype_for p d.
+Proof. exact fix_output_dtype. Qed.
+Print Assumptions C12_fix_output_dtype.
 
-(* F1: the code before the repair accepts a chunk built around data of another dtype *)
+(* a chunk the plugin built itself (raw constructor, any dtype argument) around data of another
+   dtype than declared is rejected *)
+Theorem C12_raw_chunk_wrong_dtype_rejected : forall p declared dt label kind s e rows range d,
+  declared <> dtype_for p d ->
+  is_err (fix_output_single p (IMk declared dt label kind s e rows) range d).
+Proof. exact fix_single_raw_chunk_wrong_dtype. Qed.
+Print Assumptions C12_raw_chunk_wrong_dtype_rejected.
+
+(* F1, documentation of the old behaviour: the code before 312d850 accepted such a chunk *)
 Theorem C12_fix_output_dtype_pinned_refuted :
   exists p i range d x, fix_output_single_gen false p i range d = Ok x /\ xdt x <> dtype_for p d.
 Proof. exact fix_output_dtype_pinned_refuted. Qed.
 Print Assumptions C12_fix_output_dtype_pinned_refuted.
-
-(* the repaired code satisfies the full statement *)
-Theorem C12_fix_output_dtype_repaired : forall p i range d x,
-  fix_output_single_gen true p i range d = Ok x -> xdt x = dtype_for p d.
-Proof. exact fix_output_dtype_repaired. Qed.
-Print Assumptions C12_fix_output_dtype_repaired.
-
-Theorem C12_fix_output_dtype_if_repaired : REPAIRED_F1F2 = true -> C12_full_fix_output_dtype.
-Proof. exact fix_output_dtype_if_repaired. Qed.
-Print Assumptions C12_fix_output_dtype_if_repaired.
-
-(* either version: chunks built with the declared dtype (self.chunk) *)
-Theorem C12_fix_output_dtype_partial : forall p i range d x,
-  (forall declared dt label kind s e rows, i = IMk declared dt label kind s e rows -> declared = dtype_for p d) ->
-  fix_output_single p i range d = Ok x -> xdt x = dtype_for p d.
-Proof. exact (fix_output_dtype_partial REPAIRED_F1F2). Qed.
-Print Assumptions C12_fix_output_dtype_partial.
 
 (* ---- DownChunkingPlugin._fix_output --------------------------------------------------------- *)
 
@@ -146,28 +138,19 @@ Theorem C12_down_requires_chunks : forall p i, is_chunk_item i = false -> is_err
 Proof. exact (down_requires_chunks REPAIRED_F1F2). Qed.
 Print Assumptions C12_down_requires_chunks.
 
-(* full statement: a yielded chunk carries a promised label and the declared dtype *)
-Definition C12_full_down_label_dtype : Prop :=
-  forall p i x, down_one p (VItem i) = Ok [x] ->
-    In (cdtype (xc x)) (p_provides p) /\ xdt x = dtype_for p (cdtype (xc x)).
+(* a yielded chunk carries a promised label and the declared dtype (F2 repaired by b7d8cdd) *)
+Theorem C12_down_label_dtype : forall p i x,
+  down_one p (VItem i) = Ok [x] ->
+  In (cdtype (xc x)) (p_provides p) /\ xdt x = dtype_for p (cdtype (xc x)).
+Proof. exact down_label_dtype. Qed.
+Print Assumptions C12_down_label_dtype.
 
-(* F2: the code before the repair compares neither *)
+(* F2, documentation of the old behaviour: the code before b7d8cdd compared neither *)
 Theorem C12_down_label_pinned_refuted :
   exists p i x, multi_output p = false /\ down_one_gen false p (VItem i) = Ok [x] /\
                 ~ In (cdtype (xc x)) (p_provides p).
 Proof. exact down_label_pinned_refuted. Qed.
 Print Assumptions C12_down_label_pinned_refuted.
-
-Theorem C12_down_label_dtype_repaired : forall p i x,
-  down_one_gen true p (VItem i) = Ok [x] ->
-  In (cdtype (xc x)) (p_provides p) /\ xdt x = dtype_for p (cdtype (xc x)).
-Proof. exact down_label_dtype_repaired. Qed.
-Print Assumptions C12_down_label_dtype_repaired.
-
-Theorem C12_down_label_dtype_if_repaired : REPAIRED_F1F2 = true -> C12_full_down_label_dtype.
-Proof. exact down_label_dtype_if_repaired. Qed.
-Print Assumptions C12_down_label_dtype_if_repaired.
-
 (* ---- the run: savers, continuity check on the target, exception path ------------------------- *)
 
 (* if the output path raises for any chunk of the run, the caller gets an exception and no saver's
@@ -199,34 +182,17 @@ Print Assumptions C12_result_contiguous.
    dv; offending output w of a multi-output plugin; other variant ov; run shape (n source chunks,
    r rows each) in `shapes`; position pos < n of the offending chunk; rechunk_on_save; get_array
    or make.  cell_rejected = the caller gets an exception and the offending data type is not
-   served from storage afterwards. *)
-Definition C12_full_violation_matrix : Prop := forall k vk dv w ov n r pos rechunk ga,
+   served from storage afterwards.  Decided by vm_compute over the finite domain and lifted with
+   forallb_forall. *)
+Theorem C12_violation_matrix : forall k vk dv w ov n r pos rechunk ga,
   In vk (applicable_vks k) -> In dv (dvs vk) -> In w (whichs k vk) -> In ov (ovs k vk) ->
   In (n, r) shapes -> (pos < n)%nat -> shape_ok vk n = true ->
   cell_rejected (mkcell k vk dv w ov pos n r rechunk ga) = true.
+Proof. exact violation_matrix. Qed.
+Print Assumptions C12_violation_matrix.
 
-(* the current code: every cell that is not one of its escapes (none once REPAIRED_F1F2 = true) *)
-Theorem C12_violation_matrix_partial : forall k vk dv w ov n r pos rechunk ga,
-  In vk (applicable_vks k) -> In dv (dvs vk) -> In w (whichs k vk) -> In ov (ovs k vk) ->
-  In (n, r) shapes -> (pos < n)%nat -> shape_ok vk n = true ->
-  is_escape k vk = false ->
-  cell_rejected (mkcell k vk dv w ov pos n r rechunk ga) = true.
-Proof. exact violation_matrix_partial. Qed.
-Print Assumptions C12_violation_matrix_partial.
-
-Theorem C12_violation_matrix_if_repaired : REPAIRED_F1F2 = true -> C12_full_violation_matrix.
-Proof. exact full_violation_matrix_if_repaired. Qed.
-Print Assumptions C12_violation_matrix_if_repaired.
-
-(* the repaired output path satisfies the full matrix *)
-Theorem C12_violation_matrix_repaired : forall k vk dv w ov n r pos rechunk ga,
-  In vk (applicable_vks k) -> In dv (dvs vk) -> In w (whichs k vk) -> In ov (ovs k vk) ->
-  In (n, r) shapes -> (pos < n)%nat -> shape_ok vk n = true ->
-  cell_rejected_gen true (mkcell k vk dv w ov pos n r rechunk ga) = true.
-Proof. exact violation_matrix_repaired. Qed.
-Print Assumptions C12_violation_matrix_repaired.
-
-(* the code before the repairs does not: smallest failing runs *)
+(* documentation of the old behaviour: before 312d850 / b7d8cdd the matrix was false in exactly
+   the cells of is_escape_gen false; smallest failing runs *)
 Theorem C12_violation_matrix_pinned_refuted :
   cell_rejected_gen false (mkcell KSource   VK_DTYPE_RAW 0 0 0 0 1 3 false false) = false /\
   cell_rejected_gen false (mkcell KOrdinary VK_DTYPE_RAW 0 0 0 0 1 3 false false) = false /\
@@ -237,11 +203,10 @@ Theorem C12_violation_matrix_pinned_refuted :
 Proof. exact violation_matrix_pinned_refuted. Qed.
 Print Assumptions C12_violation_matrix_pinned_refuted.
 
-(* the excluded cells are exactly those with a failing run *)
-Theorem C12_matrix_escapes_exact : forall k vk, In vk (applicable_vks k) ->
-  (is_escape k vk = true <-> exists c, In c (cells_of k vk) /\ cell_rejected c = false).
-Proof. exact escapes_exact. Qed.
-Print Assumptions C12_matrix_escapes_exact.
+Theorem C12_pinned_matrix_escapes_exact : forall k vk, In vk (applicable_vks k) ->
+  (is_escape_gen false k vk = true <-> exists c, In c (cells_of k vk) /\ cell_rejected_gen false c = false).
+Proof. exact (escapes_exact_gen false). Qed.
+Print Assumptions C12_pinned_matrix_escapes_exact.
 
 (* non-vacuity: well-behaved plugins of every kind run through and are served from storage *)
 Theorem C12_good_cells_accepted : forall k n r rechunk ga,
